@@ -3,7 +3,7 @@
 set -e
 cd "$(dirname "$0")"
 export GOFLAGS=-mod=mod GOPROXY=off GOSUMDB=off GOTOOLCHAIN=local CGO_ENABLED=0
-mkdir -p build evidence replays
+mkdir -p build evidence replays coq/Gen
 REPO="${VERIF_REPO:-/repo}"
 cp "$REPO/go.sum" go/go.sum
 # tables regenerated from the working tree (the checks with "gen": true do the same on every run)
